@@ -399,6 +399,18 @@ func c18CheckSig(c C18Sig) *pbt.Violation {
 			return pbt.V("c18.forgery.accepted:signature-of-another-profile-key", "signature verification never accepts a signature that was not produced by the services key (for this profile key)",
 				"with the services key swapped for a harness key: the signature issued for a profile key differing in byte %d of %d was accepted for this profile key", c.OtherAt%len(c.ProfileKey), len(c.ProfileKey))
 		}
+		if c.Kind == "other-key" && got {
+			// a key that has just verified with its genuine signature still needs a genuine one next time
+			forged := append([]byte{}, sig...)
+			forged[c.Flip%len(forged)] ^= 1 << uint(c.Flip%8)
+			restore := hooks.SwapSessionKey(&attacker4096.PublicKey)
+			again := user.VerifySignature(c.ProfileKey, forged)
+			restore()
+			if again || user.VerifySignature(c.ProfileKey, forged) || user.VerifySignature(c.ProfileKey, sig) {
+				return pbt.V("c18.forgery.accepted:after-genuine", "signature verification never accepts a signature that was not produced by the services key",
+					"after the profile key had verified once with a genuine signature (services key swapped for a harness key), a forged signature for the same key was accepted (swapped key: %v)", again)
+			}
+		}
 		if want := c.Kind == "other-key"; got != want {
 			return pbt.V("c18.control:"+c.Kind, "positive control: a genuine signature under the (swapped) services key verifies, a flipped one does not",
 				"with the services key swapped, %s signature verified=%v want %v", c.Kind, got, want)
